@@ -20,6 +20,10 @@ CLAIMED["C19"] = ("MIR-extracted atomic-operation programs of the output thread 
     "bounded symbolic model checking over ALL interleavings of k<=2 (thorough 3) results handled by the output thread and j<=1 (2) walker error logs; thread programs are regenerated from the MIR on every run; a counterexample schedule is replayed deterministically through the hooked binary",
     "trusts rustc's MIR printer, mirsym + atomics summary, z3; single-location coherence; threadpool/crossbeam contracts", "5/C19")
 
+CLAIMED["C05"] = ("MIR rule extraction (mirsym, compositional mode) of the expression formatter + z3 queries per tree shape with symbolic operators/leaf kinds/layout predicates against a grammar oracle; Lua-source replay",
+    "bounded symbolic model checking: for every tree shape with <=2 operators (thorough 3) and optional parentheses on every edge, in every entry context (format_expression, hang_expression, prefix), over ALL operators, leaf kinds and ALL layout decisions (width/comment predicates are free), the output re-parses to the same core tree with the same truncation; rules are regenerated from the MIR on every run",
+    "trusts rustc's MIR printer, mirsym and the leaf/trivia identity summaries, the precedence oracle (Lua manual), z3; trees deeper than the bound and comment interaction are outside", "5/C05")
+
 NOT_YET = {}
 
 NA = {
